@@ -38,3 +38,13 @@ func VerifReaderReceive(e *actor.Engine, stream DRPCRemote_ReceiveStream) error 
 	r := newStreamReader(&Remote{engine: e})
 	return r.Receive(stream)
 }
+
+// VerifUnwrapDeliver looks inside the message of a DeadLetterEvent addressed to a
+// stream writer: the undelivered outbound delivery.
+func VerifUnwrapDeliver(msg any) (d VerifDeliver, ok bool) {
+	sd, ok := msg.(*streamDeliver)
+	if !ok || sd == nil {
+		return VerifDeliver{}, false
+	}
+	return VerifDeliver{Target: sd.target, Sender: sd.sender, Msg: sd.msg}, true
+}
